@@ -419,9 +419,12 @@ pub fn search(args: &[String]) -> i32 {
             }
             // var op const / const op var: a few constants (boundary + random), boundary + random variables
             let mut cs = boundary(ty_y);
-            while cs.len() > consts {
+            let keep = |v: i128, t: Ty| v == t.min() || v == t.max() || (-2..=2).contains(&v);
+            while cs.len() > consts && cs.iter().any(|v| !keep(*v, ty_y)) {
                 let i = rng.below(cs.len());
-                cs.remove(i);
+                if !keep(cs[i], ty_y) {
+                    cs.remove(i);
+                }
             }
             for c in cs {
                 for x in boundary(t).into_iter().chain((0..3).map(|_| rand_val(&mut rng, t))) {
@@ -429,9 +432,11 @@ pub fn search(args: &[String]) -> i32 {
                 }
             }
             let mut cs = boundary(t);
-            while cs.len() > consts {
+            while cs.len() > consts && cs.iter().any(|v| !keep(*v, t)) {
                 let i = rng.below(cs.len());
-                cs.remove(i);
+                if !keep(cs[i], t) {
+                    cs.remove(i);
+                }
             }
             for c in cs {
                 for y in boundary(ty_y).into_iter().chain((0..3).map(|_| rand_val(&mut rng, ty_y))) {
